@@ -24,6 +24,7 @@ import (
 // c14Conn is an in-memory net.Conn: reads are served from a byte stream cut into the given chunk sizes
 // (like TCP segmentation, a Read returns at most one chunk's remaining bytes), writes are captured.
 type c14Conn struct {
+	stalled   bool // Write blocks while set (a peer that does not read)
 	mu        sync.Mutex
 	cond      *sync.Cond
 	stream    []byte
@@ -97,6 +98,9 @@ func (c *c14Conn) Read(b []byte) (int, error) {
 func (c *c14Conn) Write(b []byte) (int, error) {
 	c.mu.Lock()
 	defer c.mu.Unlock()
+	for c.stalled && !c.closed {
+		c.cond.Wait()
+	}
 	if c.closed {
 		return 0, net.ErrClosed
 	}
@@ -703,6 +707,157 @@ func TestVerif_C14_ActiveTCPLoopback(t *testing.T) {
 		st.Record(vfHash(tl, fl, split), len(tl)+len(fl) >= 3)
 		if st.WantSample() {
 			st.Sample(func() string { return fmt.Sprintf("toPeer=%v fromPeer=%v split=%d", tl, fl, split) })
+		}
+	})
+}
+
+
+// A small write buffer in front of a peer that does not read: whatever WriteTo accepted must reach the
+// wire as whole frames, in order; whatever it refused must leave no trace (no orphan header, no split).
+func TestVerif_C14_StalledWriteBuffer(t *testing.T) {
+	st := vfNewStats(t)
+	logger := logging.NewDefaultLoggerFactory().NewLogger("verif")
+	logger.(*logging.DefaultLeveledLogger).SetLevel(logging.LogLevelDisabled) //nolint:forcetypeassert
+	rapid.Check(t, func(rt *rapid.T) {
+		bufSize := rapid.SampledFrom([]int{24, 64, 200, 1000, 1002, 1004, 2100, 8200}).Draw(rt, "writeBuffer")
+		pkts := rapid.SliceOfN(c14PacketGen(1200), 1, 12).Draw(rt, "packets")
+		conn := newC14Conn(nil, nil, false)
+		conn.stalled = true
+		pc := newTCPPacketConn(tcpPacketParams{ReadBuffer: 8, LocalAddr: conn.local, Logger: logger, WriteBuffer: bufSize})
+		defer pc.Close() //nolint:errcheck
+		if err := pc.AddConn(conn, nil); err != nil {
+			rt.Fatalf("harness: %v", err)
+		}
+		var accepted [][]byte
+		refused := 0
+		for _, p := range pkts {
+			n, err := pc.WriteTo(p, conn.remote)
+			if err == nil && n == len(p) {
+				accepted = append(accepted, p)
+			} else {
+				refused++
+			}
+		}
+		sentinel := []byte("\x00end-of-sequence\x00")
+		conn.mu.Lock()
+		conn.stalled = false
+		conn.cond.Broadcast()
+		conn.mu.Unlock()
+		// the sentinel is written once the buffer has room again (bounded retries, no verdict depends on timing)
+		deadline := time.Now().Add(20 * time.Second)
+		for {
+			if n, err := pc.WriteTo(sentinel, conn.remote); err == nil && n == len(sentinel) {
+				break
+			}
+			if time.Now().After(deadline) {
+				st.Inconclusive()
+				rt.Fatalf("VERIF-INCONCLUSIVE: sentinel not accepted within 20 s")
+			}
+			time.Sleep(100 * time.Microsecond)
+		}
+		for !bytes.HasSuffix(conn.writtenBytes(), sentinel) {
+			if time.Now().After(deadline) {
+				st.Inconclusive()
+				rt.Fatalf("VERIF-INCONCLUSIVE: sentinel not on the wire within 20 s")
+			}
+			time.Sleep(100 * time.Microsecond)
+		}
+		wire := conn.writtenBytes()
+		got, rest := c14ParseFrames(wire)
+		lens := func(pp [][]byte) []int {
+			out := []int{}
+			for _, p := range pp {
+				out = append(out, len(p))
+			}
+
+			return out
+		}
+		want := append(append([][]byte{}, accepted...), sentinel)
+		ok := len(rest) == 0 && len(got) == len(want)
+		for i := 0; ok && i < len(got); i++ {
+			ok = bytes.Equal(got[i], want[i])
+		}
+		desc := fmt.Sprintf("writeBuffer=%d packets=%v accepted=%d refused=%d", bufSize, lens(pkts), len(accepted), refused)
+		st.Record(vfHashStr(desc), refused > 0 && len(accepted) > 0, fmt.Sprintf("refused:%v", refused > 0))
+		if refused > 0 && st.WantSample() {
+			st.Sample(func() string { return desc })
+		}
+		if !ok {
+			st.Fail(rt, "C14/tcppacketconn/stalled-buffer-corrupts-stream", "%s: wire parses as frames %v + %d stray bytes, accepted were %v + sentinel", desc, lens(got), len(rest), lens(accepted))
+		}
+	})
+}
+
+// A frame larger than the reader's buffer ends the stream: an error or closure, never packets fabricated
+// from the inside of the oversized frame.
+func TestVerif_C14_OversizeInbound(t *testing.T) {
+	st := vfNewStats(t)
+	logger := logging.NewDefaultLoggerFactory().NewLogger("verif")
+	logger.(*logging.DefaultLeveledLogger).SetLevel(logging.LogLevelDisabled) //nolint:forcetypeassert
+	rapid.Check(t, func(rt *rapid.T) {
+		before := rapid.SliceOfN(c14PacketGen(2000), 0, 3).Draw(rt, "before")
+		bigLen := rapid.OneOf(rapid.SampledFrom([]int{8193, 8194, 9000, 65535}), rapid.IntRange(8193, 65535)).Draw(rt, "oversize")
+		// the oversized body looks like a run of small, well-formed frames
+		body := make([]byte, 0, bigLen)
+		for len(body) < bigLen {
+			body = append(body, 0, 4, 'E', 'V', 'I', 'L')
+		}
+		body = body[:bigLen]
+		after := rapid.SliceOfN(c14PacketGen(200), 0, 3).Draw(rt, "after")
+		stream := append(append(c14Frame(before), c14Frame([][]byte{body})...), c14Frame(after)...)
+		chunks := c14ChunksGen(len(stream)).Draw(rt, "chunks")
+		conn := newC14Conn(stream, chunks, false)
+		pc := newTCPPacketConn(tcpPacketParams{ReadBuffer: 64, LocalAddr: conn.local, Logger: logger})
+		defer pc.Close() //nolint:errcheck
+		if err := pc.AddConn(conn, nil); err != nil {
+			rt.Fatalf("harness: %v", err)
+		}
+		desc := fmt.Sprintf("before=%d packets, oversize=%d, after=%d packets", len(before), bigLen, len(after))
+		st.Record(vfHashStr(fmt.Sprint(desc, chunks)), true)
+		if st.WantSample() {
+			st.Sample(func() string { return desc })
+		}
+		for i := 0; i <= len(before); i++ {
+			buf := make([]byte, receiveMTU)
+			ctx, cancel := context.WithTimeout(context.Background(), 20*time.Second)
+			n, _, err := pc.readFromContext(ctx, buf)
+			cancel()
+			if errors.Is(err, context.DeadlineExceeded) {
+				st.Inconclusive()
+				rt.Fatalf("VERIF-INCONCLUSIVE: no result within 20 s")
+			}
+			if i < len(before) {
+				if err != nil || !bytes.Equal(buf[:n], before[i]) {
+					st.Fail(rt, "C14/tcppacketconn/read", "%s: packet %d before the oversized frame: n=%d err=%v", desc, i, n, err)
+				}
+
+				continue
+			}
+			if err == nil {
+				st.Fail(rt, "C14/oversize-inbound/fabricated-packet", "%s: after the valid packets the reader yielded %q (%d bytes) instead of an error", desc, buf[:min(n, 16)], n)
+			}
+		}
+		// the stream is over: the TCP connection is closed and nothing else is ever delivered
+		deadline := time.Now().Add(20 * time.Second)
+		for {
+			conn.mu.Lock()
+			closed := conn.closed
+			conn.mu.Unlock()
+			if closed {
+				break
+			}
+			if time.Now().After(deadline) {
+				st.Fail(rt, "C14/oversize-inbound/stream-not-closed", "%s: the connection that sent an oversized frame is still open", desc)
+
+				break
+			}
+			time.Sleep(100 * time.Microsecond)
+		}
+		ctx, cancel := context.WithTimeout(context.Background(), 2*time.Millisecond)
+		n, _, err := pc.readFromContext(ctx, make([]byte, receiveMTU))
+		cancel()
+		if err == nil {
+			st.Fail(rt, "C14/oversize-inbound/fabricated-packet", "%s: %d more bytes delivered after the stream error", desc, n)
 		}
 	})
 }
